@@ -244,7 +244,8 @@ for _mk in ('none', 'int', 'float', 'list'):
 # two halved slices are the two different slices 0 and 1.
 # Not covered: kind='sin'; n_k = 1 (scipy raises); rounding; that the in-place halving acts on a fresh array (frames / C09).
 
-AXI = T.axioms('shape', 'core', 'cslset', 'dct1', 'centsl', 'smul')
+AXI = T.axioms('shape', 'core', 'cslset', 'dct1')
+AXE = AXI + T.axioms('centsl', 'smul')            # element level (entries of scaled slices): only for the last lemma
 HALF = z3.RealVal('1/2')
 
 
@@ -319,9 +320,173 @@ def u_func_int(U):
         dsum = T.centry(Ya[t0], a0, 0, b0) + T.rmul(X.sgnpow(j0), T.centry(Ya[t0], a0, n0 - 1, b0)) + 2 * X.dct1sum(Ya[t0], a0, j0, b0, n0 - 1)
         ectx = ctx + [0 <= a0, a0 < T.d0(Ya[t0]), 0 <= b0, b0 < T.d2(Ya[t0])]
         e_res, e_dct = T.centry(Rr[t0], a0, j0, b0), T.centry(D, a0, j0, b0)
-        U.lemma('entry-of-the-result-is-the-weighted-entry-of-the-DCT-I', ectx, z3.And(e_res == w * (c0 * e_dct), e_dct == dsum), axioms=AXI, mode='ematch',
+        U.lemma('entry-of-the-result-is-the-weighted-entry-of-the-DCT-I', ectx, z3.And(e_res == w * (c0 * e_dct), e_dct == dsum), axioms=AXE, mode='ematch',
                 kind='lemma')
         U.post('entry[r, j, q] = w_j/(n-1) * (x_0 + (-1)^j x_{n-1} + 2 sum_{0<i<n-1} x_i cos(pi j i/(n-1)))', [e_res == w * (c0 * e_dct), e_dct == dsum],
                e_res == w * c0 * dsum, qf=True)
         U.canary('canary-no-halving-at-the-ends', ctx + [j0 == 0], T.sl(Rr[t0], j0) == T.smul(c0, T.sl(D, j0)), axioms=AXI)
-        U.canary('canary-entries-are-zero', ectx, e_res == 0, axioms=AXI)
+        U.canary('canary-entries-are-zero', ectx, e_res == 0, axioms=AXE)
+
+
+# ----------------------------------------------------------------------------------------------
+# grid.grid_prep_opts, value part (the rejection logic is proved by the units grid.grid_prep_opts.* of contracts/grid.py): with a dimension
+# d given, numbers or lists for a / b and an integer array for n, the function raises ValueError iff a list-like option has a length other
+# than d, and otherwise returns (grid_prep_opt(a, d, float), grid_prep_opt(b, d, float), grid_prep_opt(n, d, int)) - the three options are
+# normalised by grid_prep_opt with the kinds float, float, int and the SAME dimension d, in this order.  This is what `call_grid_prep_opts`
+# below hands to func_sum / func_get.  Not covered here: d = None (recovered from the first list), reps.
+
+def _opts_kind(st, nm, kind, L):
+    if kind == 'number':
+        return z3.Real(nm + '0')
+    if kind == 'int':
+        return z3.Int(nm + '0')
+    return st.alloc(VSeq(z3.Const(nm + '_list', RA), L, lambda x: x, tag='real'))
+
+
+def _prep_opts_unit(U, akind, bkind):
+    fn = U.func('grid', 'grid_prep_opts')
+    st = U.state()
+    d, La, Lb, Ln = z3.Ints('d len_a len_b len_n')
+    calls = []
+
+    def rec(ex, s, args, kwargs, node):
+        out = call_grid_prep_opt_any(ex, s, args, kwargs, node)
+        calls_now = s.ghost.setdefault('gpo', [])
+        s.ghost['gpo'] = calls_now + [(args, dict(kwargs), out)]
+        return out
+
+    ex = U.executor(fn, callees={'grid.grid_prep_opt': rec})
+    a, b = _opts_kind(st, 'a', akind, La), _opts_kind(st, 'b', bkind, Lb)
+    n = X.ivec(Ln, z3.Const('n', IA))
+    st.vars.update(a=a, b=b, n=n, d=d, reps=NONE)
+    res = U.run(ex, st, pre=[d >= 1, La >= 0, Lb >= 0, Ln >= 0])
+    U.assumed.append('grid.grid_prep_opt (units grid.grid_prep_opt.*)')
+    U.cover('precondition-satisfiable', U.pre)
+    bad = z3.Or([L != d for L, k in ((La, akind), (Lb, bkind), (Ln, 'list')) if k == 'list'])
+    U.cover('rejecting-case-reachable', U.pre + [bad])
+    for p, o in res:
+        if o.kind == 'raise':
+            U.raise_iff('raises-only-if-a-list-like-option-has-a-length-other-than-d', p, bad)
+            U.raise_iff('raises-ValueError', p, o.exc == 'ValueError')
+            continue
+        U.raise_iff('returns-only-if-all-list-like-options-have-length-d', p, z3.Not(bad))
+        cs = p.ghost.get('gpo', [])
+        ok = isinstance(o.value, VTuple) and len(o.value.items) == 3 and len(cs) == 3 and all(x is c[2] for x, c in zip(o.value.items, cs))
+        U.post('returns-the-three-normalised-options-in-the-order-a-b-n', p, z3.BoolVal(ok))
+        if not ok:
+            continue
+        for (args, kw, out), src, knd, nm in zip(cs, (a, b, n), ('float', 'float', 'int'), 'abn'):
+            good = len(args) == 4 and not kw and args[0] is src and isinstance(args[2], M.TypeVal) and args[2].name == knd and args[3] is NONE
+            U.post(f'option-{nm}-is-normalised-by-grid_prep_opt-with-kind-{knd}-and-no-repetition', p, z3.BoolVal(good))
+            if good:
+                U.post(f'option-{nm}-is-normalised-with-the-dimension-d', p, Z(args[1]) == d)
+        U.canary('canary-never-returns', p, False)
+
+
+for _ak, _bk in (('number', 'number'), ('list', 'list'), ('int', 'int'), ('number', 'list')):
+    def _mk_po(ak=_ak, bk=_bk):
+        @unit(f'grid.grid_prep_opts.values.{ak}_{bk}', props=('C12', 'C18'))
+        def u(U):
+            _prep_opts_unit(U, ak, bk)
+    _mk_po()
+
+
+def call_grid_prep_opts(ex, st, args, kwargs, node):
+    """grid_prep_opts(a, b, n, d) with a dimension d: proved by the units grid.grid_prep_opts.values.* (and grid.grid_prep_opts.* for the rejection)."""
+    if kwargs or len(args) != 4:
+        raise M.Unsupported('grid_prep_opts: only the call (a, b, n, d) is under this call-site contract')
+    a, b, n, d = args
+    if not (M.is_num(d) and M.is_intsort(d)):
+        raise M.Unsupported('grid_prep_opts: the dimension must be an integer in this contract case')
+    for nm, v in zip('abn', (a, b, n)):
+        w = st.deref(v)
+        if isinstance(w, VSeq) or isinstance(w, VArr):
+            L = w.n if isinstance(w, VSeq) else w.shape[0]
+            ex.oblige(st, 'call-pre', f'grid_prep_opts: option {nm} has length d (otherwise ValueError)', Z(L) == Z(d), node)
+    out = [call_grid_prep_opt_any(ex, st, [v, d, M.TypeVal(k), NONE], {}, node) for v, k in ((a, 'float'), (b, 'float'), (n, 'int'))]
+    st.ghost.setdefault('prep_opts_calls', []).append((a, b, n, d, out))
+    return VTuple(out)
+
+
+# ----------------------------------------------------------------------------------------------
+# func.func_sum (kind='cheb'): the integral of the interpolant over the box (Clenshaw-Curtis)
+#
+#     result = [ prod_k ( (b_k - a_k)/2 * sum_{i even, i < n_k} 2/(1 - i^2) * A[k][:, i, :] ) ]_{0,0}
+# stated as the single entry of the 1 x 1 end of the chain  ccchain(A, a, b, w, d)  (theory group 'ccchain':
+# ccchain(.., 0) = [[1]], ccchain(.., k+1) = (b_k - a_k)/2 * ( ccchain(.., k) @ wsum(cstep2(A[k]), w) ),  cstep2(G) = G[:, ::2],
+# wsum(G, w) = sum_m w[m] G[:, m, :]) with the weights w[m] = 2 / (1 - (2m)^2), m = 0, 1, ...: the weight vector p, the stride-2 slice, the
+# cut p[:(n_k + 1)//2] (exactly the number of even indices below n_k: the matrix-vector product fits) and the factor (b_k - a_k)/2 per mode.
+# Any box: a, b numbers or per-mode lists (no symmetry assumed).  That the end of such a chain of weighted mode sums is the weighted sum over
+# all multi-indices is the distributive law L-SUMPROD (cited); that Clenshaw-Curtis weights integrate T_i exactly is L-CC (cited).
+# Not covered: kind='sin'; rounding; the square (2m)^2 is kept in the engine's product abstraction mulI.
+
+AXC = T.axioms('shape', 'elem', 'wsum', 'cstep2', 'ccchain', 'mulI', 'isq')
+
+
+def ccw(m):
+    """The Clenshaw-Curtis weight of the even coefficient i = 2m: 2 / (1 - i^2)."""
+    return z3.RealVal(2) / z3.ToReal(1 - T.mulI(2 * m, 2 * m))
+
+
+def _sum_unit(U, okind):
+    fn = U.func('func', 'func_sum')
+    st = U.state()
+    Y, A, d = S.tt_param(st, 'A')
+    a_in, b_in = _opts_kind(st, 'a', okind, d), _opts_kind(st, 'b', okind, d)
+    spec_a = (lambda t: M.to_real(a_in)) if okind != 'list' else (lambda t: st.heap[a_in.oid].arr[t])
+    spec_b = (lambda t: M.to_real(b_in)) if okind != 'list' else (lambda t: st.heap[b_in.oid].arr[t])
+
+    def parts(s):
+        v, av, bv, pv = s.vars.get('v'), s.vars.get('a'), s.vars.get('b'), s.vars.get('p')
+        if not (isinstance(v, VArr) and v.ndim == 2 and v.tag == 'mat' and v.t is not None):
+            raise M.ContractMismatch('func_sum(): v is not a matrix with a denotation')
+        if not (X.is_vec(av, 'rvec') and X.is_vec(bv, 'rvec') and X.is_vec(pv, 'rvec')):
+            raise M.ContractMismatch('func_sum(): a, b, p are not the prepared bounds and the weight vector')
+        return v, av, bv, pv
+
+    def inv(ex, s, j):
+        v, av, bv, pv = parts(s)
+        return [('accumulated-product-is-the-Clenshaw-Curtis-chain-over-the-finished-modes', v.t == X.ccchain(A, av.t, bv.t, pv.t, j)),
+                ('accumulated-product-is-a-row', z3.And(T.rows(v.t) == 1, T.cols(v.t) == z3.If(j == 0, 1, T.d2(A[j - 1])))),
+                ('argument-untouched', z3.BoolVal(s.heap[Y.oid].arr is A))]
+
+    ex = U.executor(fn, loops={0: {'inv': inv}}, axioms=AXC, callees={'grid.grid_prep_opts': call_grid_prep_opts})
+    ex.mode = 'ematch'
+    ex.functt = True
+    ex.asserts = True
+    st.vars.update(A=Y, a=a_in, b=b_in, kind=VStr('cheb'))
+    res = U.run(ex, st, pre=[T.wf(A, d)])
+    U.assumed += ['grid.grid_prep_opts (units grid.grid_prep_opts.values.*)', 'props.shape (unit props.shape)']
+    U.cover('precondition-satisfiable', U.pre, axioms=AXC)
+    t0, m0 = z3.Ints('t0 m0')
+    for p, o in res:
+        if o.kind != 'return':
+            U.post('no-exception', p, False, axioms=AXC, mode='ematch')
+            continue
+        U.post('returns-a-number-and-leaves-the-argument-untouched', p, z3.BoolVal(M.is_num(o.value) and p.heap[Y.oid].arr is A))
+        if not M.is_num(o.value):
+            continue
+        v, av, bv, pv = parts(p)
+        hyp = list(p.pc)
+        chain = X.ccchain(A, av.t, bv.t, pv.t, d)
+        U.post('result-is-the-single-entry-of-the-Clenshaw-Curtis-chain-over-all-modes (L-SUMPROD: = the weighted sum of all coefficients)', hyp,
+               M.to_real(o.value) == T.ent(chain, 0, 0), axioms=AXC, mode='ematch')
+        U.post('the-chain-ends-in-a-1x1-matrix', hyp, z3.And(T.rows(chain) == 1, T.cols(chain) == 1), axioms=AXC, mode='ematch')
+        U.post('weights-are-2/(1-i^2)-at-the-even-indices-i=2m', hyp + [0 <= m0], pv.t[m0] == ccw(m0), axioms=AXC, mode='ematch')
+        U.post('bounds-of-mode-k-are-the-number-resp-the-k-th-list-element', hyp + [0 <= t0, t0 < d],
+               z3.And(av.t[t0] == spec_a(t0), bv.t[t0] == spec_b(t0)), axioms=AXC, mode='ematch')
+        U.post('the-cut-of-the-weights-is-the-number-of-even-indices-below-n_k', hyp + [0 <= t0, t0 < d],
+               T.d1(X.cstep2(A[t0])) == (T.d1(A[t0]) + 1) / 2, axioms=AXC, mode='ematch')
+        U.canary('canary-result-is-zero', p, M.to_real(o.value) == 0, axioms=AXC)
+        U.canary('canary-no-box-factor', hyp, M.to_real(o.value) == T.ent(X.ccchain(A, z3.K(z3.IntSort(), z3.RealVal(-1)), z3.K(z3.IntSort(), z3.RealVal(1)), pv.t, d), 0, 0),
+                 axioms=AXC)
+    U.lemmas += ['L-SUMPROD: the end of the chain of weighted mode sums = sum over all multi-indices of the weighted entries (cited)',
+                 'L-CC: sum over even i of 2/(1-i^2) c_i is the integral over [-1, 1] of sum_i c_i T_i (Clenshaw-Curtis; cited)']
+
+
+for _ok in ('number', 'list'):
+    def _mk_su(ok=_ok):
+        @unit('func.func_sum.' + ok, props=('C12', 'C11'))
+        def u(U):
+            _sum_unit(U, ok)
+    _mk_su()
